@@ -356,6 +356,7 @@ func TestVerif_C11_GatherEvents(t *testing.T) {
 			rt.Fatalf("harness: %v", err)
 		}
 		slow := rapid.IntRange(0, 2).Draw(rt, "slowHandler")
+		reenter := rapid.Bool().Draw(rt, "handlerCallsBackIntoAgent")
 		var (
 			mu           sync.Mutex
 			events       []string
@@ -374,6 +375,12 @@ func TestVerif_C11_GatherEvents(t *testing.T) {
 			defer running.Add(-1)
 			if slow > 0 {
 				c11Jitter(10 * slow)
+			}
+			if reenter {
+				// the handler calls back into the agent
+				_, _ = w.agent.GetLocalCandidates()
+				_, _, _ = w.agent.GetLocalUserCredentials()
+				_, _ = w.agent.GetGatheringState()
 			}
 			mu.Lock()
 			defer mu.Unlock()
@@ -440,7 +447,7 @@ func TestVerif_C11_GatherEvents(t *testing.T) {
 		mu.Lock()
 		ev := append([]string{}, events...)
 		mu.Unlock()
-		desc := fmt.Sprintf("%+v slow=%d cycles=%v events=%v", cfg, slow, ufrags, ev)
+		desc := fmt.Sprintf("%+v slow=%d reenter=%v cycles=%v events=%v", cfg, slow, reenter, ufrags, ev)
 		if maxRunning.Load() > 1 {
 			st.Fail(rt, "C11/gather/handler-overlap", "candidate handler ran %d times concurrently: %s", maxRunning.Load(), desc)
 		}
